@@ -463,4 +463,163 @@ theorem dump_every_pfreq (c : Cfg α) (dt0 : α) (k : Nat) (hk : k ≤ (solve c 
     · simp [h]
     · simp at h; simp [h]
 
+/-! ## output at every requested time -/
+
+private theorem loop_of_not_guard (c : Cfg α) (fuel : Nat) (s : St α)
+    (h : SolverLoop.guard c s = false) : loop c fuel s = (s, []) := by
+  cases fuel with
+  | zero => rfl
+  | succ m => unfold loop; simp [h]
+
+private theorem loop_of_guard (c : Cfg α) (n : Nat) (s : St α)
+    (h : SolverLoop.guard c s = true) :
+    loop c (n + 1) s = ((loop c n (iterSt c s)).1, iterEv c s ++ (loop c n (iterSt c s)).2) := by
+  rw [loop]; simp [h]
+
+private theorem iterSt_eps (c : Cfg α) (s : St α) :
+    (iterSt c s).eps = (getTimestep c (advance c s)).eps ∧
+    (iterSt c s).t = (getTimestep c (advance c s)).t := by
+  unfold iterSt
+  rw [dumpIfNeeded_fst]
+  split
+  · exact ⟨rfl, rfl⟩
+  · exact ⟨(landOn_t _ _).2.1, (landOn_t _ _).1⟩
+
+private theorem loop_reaches (c : Cfg α) (dt0 : α) (G : Good c dt0) (T : α) (hT : T ∈ c.outT)
+    (hTtf : T ≤ c.tf) :
+    ∀ fuel s, Inv c s → s.t + s.eps < T → (loop c fuel s).1.count < c.maxSteps →
+      c.maxSteps - s.count ≤ fuel →
+      (∃ d, Ev.dump d ∈ (loop c fuel s).2 ++ [Ev.dump (loop c fuel s).1] ∧ |T - d.t| ≤ d.eps) ∨
+      (∃ s', Ev.step s' ∈ (loop c fuel s).2 ∧ T - s'.t = s'.eps) := by
+  intro fuel
+  induction fuel with
+  | zero =>
+    intro s _ _ hc hf
+    simp only [loop] at hc
+    omega
+  | succ n ih =>
+    intro s I hb hc hf
+    by_cases hg : SolverLoop.guard c s = true
+    · have hr := (guard_running c s hg).1
+      rw [loop_of_guard c n s hg] at hc ⊢
+      simp only at hc ⊢
+      have I' := inv_iterSt c dt0 G s I hr
+      have hle : (iterSt c s).t ≤ T := by
+        rw [iterSt_t]; exact I.not_past hr T hT (by linarith)
+      by_cases hb' : (iterSt c s).t + (iterSt c s).eps < T
+      · have hf' : c.maxSteps - (iterSt c s).count ≤ n := by rw [iterSt_count]; omega
+        rcases ih (iterSt c s) I' hb' hc hf' with ⟨d, hd, hdT⟩ | ⟨s', hs', hsT⟩
+        · left
+          refine ⟨d, ?_, hdT⟩
+          rcases List.mem_append.mp hd with h | h
+          · exact List.mem_append_left _ (List.mem_append_right _ h)
+          · exact List.mem_append_right _ h
+        · right
+          exact ⟨s', List.mem_append_right _ hs', hsT⟩
+      · -- the pass arrives within ε of T
+        have hclose : T - (iterSt c s).t ≤ (iterSt c s).eps := by linarith [not_lt.mp hb']
+        have habs : |T - (iterSt c s).t| ≤ (iterSt c s).eps := by
+          rw [abs_of_nonneg (by linarith)]; exact hclose
+        have final_dump : loop c n (iterSt c s) = (iterSt c s, []) →
+            ∃ d, Ev.dump d ∈ (iterEv c s ++ (loop c n (iterSt c s)).2) ++
+              [Ev.dump (loop c n (iterSt c s)).1] ∧ |T - d.t| ≤ d.eps := by
+          intro hl
+          refine ⟨iterSt c s, ?_, habs⟩
+          rw [hl]; simp
+        by_cases hearly : absv ((getTimestep c (advance c s)).t - c.tf) <
+            (getTimestep c (advance c s)).eps
+        · left
+          apply final_dump
+          apply loop_of_not_guard
+          have hst : iterSt c s = getTimestep c (advance c s) := by
+            unfold iterSt; rw [dumpIfNeeded_fst]; simp [hearly]
+          rw [hst]
+          have : ¬ Running c (getTimestep c (advance c s)) :=
+            fun hr => (running_not_early c _ hr).2 hearly
+          unfold Running at this
+          simp [SolverLoop.guard, this]
+        · by_cases hnear : T - (iterSt c s).t < (iterSt c s).eps
+          · left
+            refine ⟨iterSt c s, ?_, habs⟩
+            apply List.mem_append_left
+            apply List.mem_append_left
+            unfold iterEv
+            apply List.mem_append_right
+            have hn : nearAny (getTimestep c (advance c s)) c.outT = true := by
+              unfold nearAny
+              rw [List.any_eq_true]
+              refine ⟨T, hT, ?_⟩
+              unfold nearOne
+              rw [absv_eq_abs, ← (iterSt_eps c s).1, ← (iterSt_eps c s).2,
+                abs_of_nonneg (by linarith)]
+              simpa using hnear
+            unfold iterSt dumpIfNeeded
+            simp [hearly, hn]
+          · have heq : T - (iterSt c s).t = (iterSt c s).eps :=
+              le_antisymm hclose (not_lt.mp hnear)
+            by_cases hg' : SolverLoop.guard c (iterSt c s) = true
+            · cases n with
+              | zero => left; exact final_dump rfl
+              | succ m =>
+                right
+                refine ⟨iterSt c s, ?_, heq⟩
+                apply List.mem_append_right
+                rw [loop_of_guard c m _ hg']
+                apply List.mem_append_left
+                simp [iterEv]
+            · left
+              apply final_dump
+              exact loop_of_not_guard c n _ (by simpa using hg')
+    · -- the loop has ended short of T although T ≤ tf: impossible
+      have hgf : SolverLoop.guard c s = false := by simpa using hg
+      rw [loop_of_not_guard c _ s hgf] at hc
+      simp only at hc
+      have : ¬ Running c s := by
+        intro hr
+        have : SolverLoop.guard c s = true := by
+          unfold Running at hr; simp [SolverLoop.guard, hr, hc]
+        rw [hgf] at this; cases this
+      unfold Running at this
+      have := not_lt.mp this
+      linarith
+
+/-- **Output at every requested time.**  If the loop was not stopped by
+`max_steps`, then for every requested time `T` in `[0, tf]` there is a dump at
+a time within the solver's ε of `T` — except in the corner where a step starts
+at EXACTLY `T - ε` (the code's test is the strict `|T - t| < ε`; in the
+repaired code such a state does not land on `T` either, as `T - t > ε` fails). -/
+theorem dump_at_requested_time (c : Cfg α) (dt0 : α) (G : Good c dt0) (T : α)
+    (hT : T ∈ c.outT) (h0 : 0 ≤ T) (hTtf : T ≤ c.tf)
+    (hmax : (solve c dt0).1.count < c.maxSteps) :
+    (∃ d, Ev.dump d ∈ (solve c dt0).2 ∧ |T - d.t| ≤ d.eps) ∨
+    (∃ s, Ev.step s ∈ (solve c dt0).2 ∧ T - s.t = s.eps) := by
+  have hc : (start c dt0).count = 0 := by
+    unfold start
+    rw [(landOn_t _ _).2.2.1, (getTimestep_fields c _).2.2]; rfl
+  have ht : (start c dt0).t = 0 := by
+    unfold start
+    rw [(landOn_t _ _).1, (getTimestep_fields c _).1]; rfl
+  have he : (start c dt0).eps = (init c dt0).eps := by
+    unfold start
+    rw [(landOn_t _ _).2.1, (getTimestep_fields c _).2.1]
+  by_cases hb : (start c dt0).t + (start c dt0).eps < T
+  · rcases loop_reaches c dt0 G T hT hTtf c.maxSteps (start c dt0) (inv_start c dt0 G) hb hmax
+      (by omega) with ⟨d, hd, hdT⟩ | ⟨s', hs', hsT⟩
+    · left
+      refine ⟨d, ?_, hdT⟩
+      unfold solve
+      rcases List.mem_append.mp hd with h | h
+      · simp [h]
+      · simp at h; simp [h]
+    · right
+      refine ⟨s', ?_, hsT⟩
+      unfold solve
+      simp [hs']
+  · left
+    refine ⟨init c dt0, by simp [solve], ?_⟩
+    rw [ht, he] at hb
+    have : (init c dt0).t = 0 := rfl
+    rw [this, sub_zero, abs_of_nonneg h0]
+    linarith [not_lt.mp hb]
+
 end PysphVerif.C10
